@@ -83,6 +83,56 @@ func buildReplayBinary(repo string, spec LoadSpec, stubs []StubSpec, harnessName
 	return buildReplayBinaryOpt(repo, spec, stubs, harnessNames, tmp, false)
 }
 
+// lockSites (set for packages with sched harnesses): Lock / RLock calls in the package under test
+// are routed through vLk("L:<file>:<line>", ...), so that the native replay can steer the order of
+// lock acquisitions recorded by the engine's scheduler (and perturb it when running free).
+var lockSites bool
+
+var reLockCall = regexp.MustCompile(`([A-Za-z_][\w]*(?:\.[A-Za-z_][\w]*)*)\.(Lock|RLock)\(\)`)
+
+func rewriteLockSites(ov map[string][]byte, repo, pkgDir string) error {
+	dir := filepath.Join(repo, pkgDir)
+	ents, err := os.ReadDir(dir)
+	if err != nil {
+		return err
+	}
+	for _, e := range ents {
+		n := e.Name()
+		if !strings.HasSuffix(n, ".go") || strings.HasSuffix(n, "_test.go") || strings.HasPrefix(n, "zz_verif_") {
+			continue
+		}
+		p := filepath.Join(dir, n)
+		src, ok := ov[p]
+		if !ok {
+			src, err = os.ReadFile(p)
+			if err != nil {
+				return err
+			}
+		}
+		if !bytes.Contains(src, []byte("Lock()")) {
+			continue
+		}
+		lines := strings.Split(string(src), "\n")
+		changed := false
+		for i, l := range lines {
+			t := strings.TrimSpace(l)
+			if strings.HasPrefix(t, "//") || strings.HasPrefix(t, "func ") || strings.HasPrefix(t, "defer ") || strings.HasPrefix(t, "go ") {
+				continue
+			}
+			tag := fmt.Sprintf("L:%s:%d", filepath.ToSlash(filepath.Join(pkgDir, n)), i+1)
+			nl := reLockCall.ReplaceAllString(l, `vLk("`+tag+`", ${1}.${2})`)
+			if nl != l {
+				lines[i] = nl
+				changed = true
+			}
+		}
+		if changed {
+			ov[p] = []byte(strings.Join(lines, "\n"))
+		}
+	}
+	return nil
+}
+
 func buildReplayBinaryOpt(repo string, spec LoadSpec, stubs []StubSpec, harnessNames []string, tmp string, race bool) (string, error) {
 	pkgName, err := specPackageName(spec)
 	if err != nil {
@@ -172,6 +222,11 @@ func buildReplayBinaryOpt(repo string, spec LoadSpec, stubs []StubSpec, harnessN
 				out += "\n\nvar _ = " + pat + "\n"
 			}
 			ov[p] = []byte(out)
+		}
+	}
+	if lockSites {
+		if err := rewriteLockSites(ov, repo, spec.PkgDir); err != nil {
+			return "", err
 		}
 	}
 	needLink := false
@@ -314,6 +369,12 @@ func (rep *CheckReport) replayAll(o *checkOpts) {
 			rep.Problems = append(rep.Problems, "replay: "+err.Error())
 			continue
 		}
+		lockSites = false
+		for _, hd := range g.P.harness {
+			if hd.Opts["sched"] == "1" {
+				lockSites = true
+			}
+		}
 		bin, err := buildReplayBinary(o.repo, g.spec, g.P.stubSpec, g.P.harnessNames(), tmp)
 		if err != nil {
 			rep.Problems = append(rep.Problems, "replay build: "+err.Error())
@@ -436,7 +497,8 @@ func cmdReplay(args []string) int {
 			names = append(names, string(m[1]))
 		}
 	}
-	bin, err := buildReplayBinary(repo, LoadSpec{RepoDir: repo, PkgDir: rf.PkgDir, Files: rf.Files, Aux: rf.Aux}, rf.Stubs, names, tmp)
+	lockSites = len(rf.Sched) > 0 || rf.Kind == "race" || rf.Kind == "deadlock"
+	bin, err := buildReplayBinaryOpt(repo, LoadSpec{RepoDir: repo, PkgDir: rf.PkgDir, Files: rf.Files, Aux: rf.Aux}, rf.Stubs, names, tmp, rf.Kind == "race")
 	if err != nil {
 		fmt.Fprintln(os.Stderr, err)
 		return 2
